@@ -25,6 +25,10 @@ func init() {
 func runC03(r *core.Run) {
 	r.Rule("(a) sequential histories minting every quote in every state (unpaid, paid, issued, re-mint with other outputs, bad outputs then corrected request, internal settlement, restarts) judged per quote: #issuances <= #payments, none before payment, sum <= amount; (b) NUT-20 tamper matrix on locked quotes (each must fail and leave the quote usable for the valid request); (c) controlled-scheduler enumeration of all DB/LN-call interleavings of mint(O1)||mint(O2), mint||late 'invoice settled' notification, mint||poll, internal-settlement||mint on one quote, each followed by a further mint attempt; thorough adds sampled three-way schedules, porcupine stress and -race. Non-trivial = sequential operations on a quote that was paid, tamper cases, and schedules in which both threads took a step before the other finished")
 	r.Assume("payments of a quote = Lightning settlement of its invoice (at most one) + internal settlements by melts; DB/LN-call interleavings are the observable ones (DESIGN 1.1)")
+	if os.Getenv("VERIF_RACE_CHILD") != "" {
+		c03Stress(r) // the -race child repeats the concurrent workload only
+		return
+	}
 	c03Sequential(r)
 	c03Nut20(r)
 	if r.Violations() < 10 {
@@ -136,7 +140,7 @@ func c03Nut20(r *core.Run) {
 	for it := 0; it < n; it++ {
 		key, _ := btcec.NewPrivateKey()
 		other, _ := btcec.NewPrivateKey()
-		amount := uint64(7 + rng.Intn(250))
+		amount := uint64(7+rng.Intn(250)) | 3 // at least two outputs, so that order and truncation mean something
 		q, err := env.RequestMintQuote(amount, hex.EncodeToString(key.PubKey().SerializeCompressed()))
 		if err != nil {
 			r.Violate("nut20:locked-quote-refused", err.Error(), "nut20", nil)
@@ -461,7 +465,7 @@ func c03Schedules(r *core.Run) {
 	}
 	for ti, sc := range three {
 		sc := sc
-		core.Parallel(3000, 16, func(i int) {
+		core.Parallel(1500, 16, func(i int) {
 			tag := fmt.Sprintf("sched3/%s/%d", sc.name, i)
 			if !r.Want(tag) || r.Violations() >= 10 {
 				return
